@@ -975,10 +975,45 @@ def scalesites():
     return rows
 
 
+def objectiveflow():
+    """how terms reach the objective of the Opti shared by an OCP and all its stages: the body of OptiWrapper.add_objective, every call
+    of clear_objective, and every `<opti>.add_objective(...)` call of the method classes with its argument"""
+    files = ["direct_method.py", "sampling_method.py", "spline_method.py", "multiple_shooting.py", "single_shooting.py", "direct_collocation.py", "stage.py", "ocp.py"]
+    body, clears, calls = "", [], []
+    for f in files:
+        path = os.path.join(REPO, "rockit", f)
+        if not os.path.exists(path):
+            continue
+        tree = ast.parse(open(path).read())
+        for cls in [n for n in tree.body if isinstance(n, ast.ClassDef)]:
+            for fn in [n for n in cls.body if isinstance(n, ast.FunctionDef)]:
+                if cls.name == "OptiWrapper" and fn.name == "add_objective":
+                    body = ";".join(_norm(ast.unparse(st)) for st in fn.body)
+                for n in ast.walk(fn):
+                    if isinstance(n, ast.Call) and isinstance(n.func, ast.Attribute):
+                        recv = _norm(ast.unparse(n.func.value))
+                        if n.func.attr == "clear_objective":
+                            clears.append(cls.name + "." + fn.name)
+                        if n.func.attr == "add_objective" and recv.endswith("opti"):
+                            calls.append((cls.name + "." + fn.name, _norm(ast.unparse(n.args[0])) if n.args else ""))
+    L = ["/-! GENERATED by tools/extract.py from /repo/rockit — do not edit. -/", "namespace Rockit.Generated", "",
+         "/-- body of `OptiWrapper.add_objective` -/", 'def optiAddObjective : String := "%s"' % body.replace('"', "'"), "",
+         "/-- functions that call `clear_objective` -/", "def clearObjectiveCalls : List String := " + lean_str_list(clears), "",
+         "/-- (function, argument) of every `<…>opti.add_objective(…)` call of the method classes -/",
+         "def objectiveCalls : List (String × String) := [" + ", ".join('("%s", "%s")' % (a, b.replace('"', "'")) for a, b in calls) + "]", "",
+         "end Rockit.Generated", ""]
+    path = os.path.join(OUT, "Objective.lean")
+    new_src = "\n".join(L)
+    if not os.path.exists(path) or open(path).read() != new_src:
+        open(path, "w").write(new_src)
+    return body, clears, calls
+
+
 def main():
     rows = _main_inval()
     roottimes()
     scalesites()
+    objectiveflow()
     guards()
     infcert()
     clonetable()
